@@ -3,7 +3,7 @@
    prod, sumbool map to OCaml's; N, Z, positive, nat stay inductive. *)
 From Coq Require Extraction.
 From Coq Require ExtrOcamlBasic.
-From TP Require Import Base Elem Term Screen VT Parser Markup Order Oracle Proto.
+From TP Require Import Base Elem Term Screen VT Parser Markup Order Oracle Proto Show.
 
 Extraction Language OCaml.
 Extraction "extracted/model.ml"
@@ -22,4 +22,5 @@ Extraction "extracted/model.ml"
   vt_bytes vt_resize vt0_clean vt0_junk adopt_keep adopt_corner adopt_home
   oracle_run wf_op_b wf_elem wf_title displayable
   digit10 digit16 mstep
-  enc tok wf_item adjacency_ok enc_all.
+  enc tok wf_item adjacency_ok enc_all
+  show_stream.
